@@ -92,13 +92,12 @@ Definition render_text (l : sline) : string := string_of_list_ascii (render l).
 (* phase 2: a spelled statement in a parser state: the text as it was probed, what FORD did.
    bit 0: the model classifies the text differently from FORD; bit 1: FORD does not treat the line as
    the statement it is (Spec); region 0 = inside the side conditions of the dispatch theorem
-   (line_ok, place_ok), 3 4 5 = the spellings of CascadeSpec.known_region, 9 = otherwise outside; 2000 = the probed text is not the rendered line *)
+   (line_ok, place_ok), 9 = outside; 2000 = the probed text is not the rendered line *)
 Definition sprobe := (ckind * bool * bool * sline * str * (str * list (str * str) * list (bool * str) * bool))%type.
 Definition judge_sline (p : sprobe) : nat :=
   let '(k, inc, lvl0, l, text, obs) := p in
   if negb (seqb (render l) text) then 2000 else
-  let region := if line_ok l && place_ok k inc lvl0 l then 0
-                else match known_region l with 0 => 9 | r => r end in
+  let region := if line_ok l && place_ok k inc lvl0 l then 0 else 9 in
   let '(branch, created, ifaces, raised) := obs in
   let sv := negb (observed_fits k inc lvl0 (stmt_of l) obs) in
   match classify (mkctx k inc lvl0) text with
